@@ -54,6 +54,10 @@ def families(tier):
         ("lattice", lambda: (dict(phi=p) for p in phis()), 1),
         ("corpus", lambda: (dict(file=f) for f in (CORPUS_Q if q else CORPUS_T)), 1),
         ("corpus-pdb-translated", lambda: (dict(file=f, pdb_shift=list(sh)) for f in (CORPUS_Q[:4] if q else CORPUS_T) for sh in ((-250.0, -250.0, -250.0), (1500.0, 0.0, -180.0), (0.0, 2000.0, 0.0))), 1),
+        # the same files with every 6th residue removed (chain breaks inside chains: several connected segments) and with one of the glycosidic atoms removed
+        # from every 4th remaining residue (C4 / C2, N9 / N1, C1', O4' in turn): a torsion whose defining atoms are not all there, or whose residues are not
+        # covalently linked, has no value
+        ("corpus-thinned", lambda: (dict(file=f, thin=k) for f in (CORPUS_Q if q else CORPUS_T) for k in (0, 3)), 1),
         ("corpus-icodes", lambda: (dict(file=f, relabel=k) for f in (CORPUS_Q[:4] if q else CORPUS_T) for k in ("icode-pairs", "icode-triples")), 1),
     ]
 
@@ -172,6 +176,21 @@ def run_corpus(case):
     t = corpus.table(name)
     if corpus.has_altlocs(t):
         t = [a for a in t if a["altloc"] in (None, "A")]
+    if "thin" in case:
+        res = corpus.residues(t)
+        keep = []
+        k = 0
+        for idx, (ident, atoms) in enumerate(res):
+            if idx % 6 == (2 + case["thin"]) % 6:
+                continue  # residue removed: its neighbours are no longer linked
+            k += 1
+            if k % 4 == 0:
+                names = {a["name"] for a in atoms}
+                drop = [("C4" if "N9" in names else "C2"), ("N9" if "N9" in names else "N1"), "C1'", "O4'"][(k // 4 + case["thin"]) % 4]
+                atoms = [a for a in atoms if a["name"] != drop]
+            keep.extend(atoms)
+        t = keep
+        name = name + "+thinned%d" % case["thin"]
     if case.get("relabel"):
         # order-preserving relabeling: consecutive residues share a number and are told apart by insertion code only (10, 10A, 10B, 11, ...)
         from mc.props.c05 import apply_abstract
@@ -236,6 +255,10 @@ def run_corpus(case):
             if c[0] == "exc":
                 out.append(viol("corpus:chi:" + c[1], "chi raised " + c[2]))
                 continue
+            if not all(a is not None for a in atoms) and letter.upper() in "ACGUT" and not math.isnan(c[1]):
+                # for a residue of known type chi is the torsion of exactly these four atoms: when one of them is absent there is no value
+                out.append(viol("corpus:chi:value-without-its-atoms", "%s chi of %s (one-letter %r) is %.6f although %s is absent" % (
+                    name, r.full_name, letter, c[1], [x for x, a in zip(("O4'", "C1'") + base, atoms) if a is None]), c[1], "nan"))
             if all(a is not None for a in atoms):
                 ref = rt.torsion(*[a.coordinates for a in atoms])
                 n += 1
@@ -316,6 +339,23 @@ def run_corpus(case):
                 if not pts:
                     bbad += 1
                     first_bad = first_bad or ("%s listed although its atoms are not all present" % an, key)
+                    continue
+                # a torsion that reaches into the neighbouring residue exists only across a covalent link (O3'-P below 2.4 A; undecided within 1e-6)
+                offs = sorted({off for _, off in spec})
+                linked = True
+                for lo in range(offs[0], offs[-1]):
+                    o3, pp = residues[i + lo].find_atom("O3'"), residues[i + lo + 1].find_atom("P")
+                    d = None if o3 is None or pp is None else float(np.linalg.norm(o3.coordinates - pp.coordinates))
+                    if d is None or d >= 2.4 + 1e-6:
+                        linked = False
+                    elif d > 2.4 - 1e-6:
+                        linked = None
+                        break
+                if linked is None:
+                    continue
+                if linked is False:
+                    bbad += 1
+                    first_bad = first_bad or ("%s listed across a chain break (the residues are not linked)" % an, key)
                     continue
                 ref = rt.torsion(*pts)
                 if abs(math.sin(ref)) < 1e-6:
